@@ -100,19 +100,10 @@ def spec_turtle(tier):
     )
 
 
-def serializer_format_unchanged(ctx):
+def serializer_format_unchanged(ctx, rep):
     """The serializer harnesses compare bytes with `<s> <p> <o>.\\n` / `<s> <p> <o> <g>.\\n`. White-space placement is not part of
     the property, so a format change must not become an alarm: the real serializers are asked natively first."""
-    from engine import replay as rp
-    try:
-        rep = rp.Replay(ctx.id + "fmt", profiles=("dev",))
-    except RuntimeError as e:
-        ctx.inconc("replay crate did not build: %s" % str(e)[-300:])
-        return False
-    try:
-        rc, out = rep.run("dev", ["rt", "fmt"], timeout=120)
-    finally:
-        rep.close()
+    rc, out = rep.run("dev", ["rt", "fmt"], timeout=120)
     ok = rc == 0 and "NT:<a> <b> <c>.\\n" in out and "NQ:<a> <b> <c> <b>.\\n<a> <b> <c>.\\n" in out
     if not ok:
         ctx.inconc("the N-Triples/N-Quads serializers no longer write `<s> <p> <o>.` byte for byte (%r): the byte-comparing harnesses "
@@ -121,49 +112,49 @@ def serializer_format_unchanged(ctx):
 
 
 def run(ctx):
+    from engine import replay as rp
     kprop.run(ctx, spec(ctx.tier))
     kprop.run(ctx, spec_inmem(ctx.tier))
     kprop.run(ctx, spec_rio(ctx.tier))
-    if serializer_format_unchanged(ctx):
-        kprop.run(ctx, spec_turtle(ctx.tier))
-    native_fault_corpus(ctx)
-
-
-def native_fault_corpus(ctx):
-    """The 'replay only' half of the design (real parsers as sources, real io::Error, real stores, real Vec/BTreeSet):
-    every single-fault position of a few small real pipelines, natively, dev and release. Not solver-decided; it covers
-    code shapes (Vec buffering, io::Error juggling) on which the harnesses above do not finish."""
-    from engine import replay as rp
-    from engine.common import log
     try:
-        rep = rp.Replay(ctx.id + "corpus", profiles=("dev", "release"))
+        rep = rp.Replay(ctx.id + "native", profiles=("dev", "release"))
     except RuntimeError as e:
         ctx.inconc("replay crate did not build: %s" % str(e)[-300:])
         return
     try:
-        lines = []
-        runs = 0
-        for prof in ("dev", "release"):
-            rc, out = rep.run(prof, ["c15"], timeout=600)
-            runs += 1
-            if rc not in (0, 1):
-                ctx.inconc("native fault corpus (%s) crashed: rc=%s %s" % (prof, rc, out[-200:]))
-                continue
-            for l in out.splitlines():
-                if l.startswith("REPLAY-VIOLATION") and l not in lines:
-                    lines.append(l)
-        ctx.coverage["native_fault_corpus"] = {"runs": runs, "deviations": len(lines),
-                                               "what": "NtSerializer/NqSerializer x source-fault position x writer byte budget (persistent/transient); insert_all/remove_all on "
-                                                       "Fast/Light datasets and graphs and Vec x source-fault position; Turtle parser x sink-fault call index / syntax error"}
-        ctx.coverage["traces_validated_against_impl"] = ctx.coverage.get("traces_validated_against_impl", 0) + runs
-        if lines:
-            wp = ctx.write_witness("native-fault-corpus", {"property": "C15", "kind": "native-fault-corpus", "deviations": lines[:40]})
-            log("[C15] native fault corpus: %d deviations, e.g. %s" % (len(lines), lines[0][:200]))
-            ctx.violation(wp, "native fault corpus: %s" % lines[0][17:300])
-        else:
-            log("[C15] native fault corpus: 0 deviations (dev + release)")
+        if serializer_format_unchanged(ctx, rep):
+            kprop.run(ctx, spec_turtle(ctx.tier))
+        native_fault_corpus(ctx, rep)
     finally:
         rep.close()
+
+
+def native_fault_corpus(ctx, rep):
+    """The 'replay only' half of the design (real parsers as sources, real io::Error, real stores, real Vec/BTreeSet):
+    every single-fault position of a few small real pipelines, natively, dev and release. Not solver-decided; it covers
+    code shapes (Vec buffering, io::Error juggling) on which the harnesses above do not finish."""
+    from engine.common import log
+    lines = []
+    runs = 0
+    for prof in ("dev", "release"):
+        rc, out = rep.run(prof, ["c15"], timeout=600)
+        runs += 1
+        if rc not in (0, 1):
+            ctx.inconc("native fault corpus (%s) crashed: rc=%s %s" % (prof, rc, out[-200:]))
+            continue
+        for l in out.splitlines():
+            if l.startswith("REPLAY-VIOLATION") and l not in lines:
+                lines.append(l)
+    ctx.coverage["native_fault_corpus"] = {"runs": runs, "deviations": len(lines), "solver_decided": False,
+                                           "what": "NtSerializer/NqSerializer x source-fault position x writer byte budget (persistent/transient); insert_all/remove_all on "
+                                                   "Fast/Light datasets and graphs and Vec x source-fault position; Turtle parser x sink-fault call index / syntax error"}
+    ctx.coverage["traces_validated_against_impl"] = ctx.coverage.get("traces_validated_against_impl", 0) + runs
+    if lines:
+        wp = ctx.write_witness("native-fault-corpus", {"property": "C15", "kind": "native-fault-corpus", "deviations": lines[:40]})
+        log("[C15] native fault corpus: %d deviations, e.g. %s" % (len(lines), lines[0][:200]))
+        ctx.violation(wp, "native fault corpus: %s" % lines[0][17:300])
+    else:
+        log("[C15] native fault corpus: 0 deviations (dev + release)")
 
 
 def replay(ctx, path):
